@@ -315,12 +315,62 @@ def run(report):
     for part in env.pmap(_conv_shard, items):
         report.absorb(part)
     report.extra["converter_trees"] = report.evaluations - before
+    # (5) optional coverage-guided stage (thorough tier): atheris/libFuzzer over a structured decoder
+    if not quick:
+        _fuzz_stage(report)
     report.samples = report.samples[:10]
     report.assumptions += [
         "ast.parse of the host interpreter (3.12) defines which compositions are expressions",
         "tree equality is ast-field equality modulo ctx, Constant.kind, positions and the "
         "Constant(-n)/USub(Constant(n)) normal form",
     ]
+
+
+def _fuzz_one(item):
+    import subprocess
+    import sys
+    import tempfile
+    seed, runs = item
+    art = tempfile.mkdtemp(prefix="olverif-fuzz-", dir="/tmp")
+    try:
+        p = subprocess.run([sys.executable, "-m", "olverif.fuzz_expr", art, "-runs=%d" % runs, "-seed=%d" % (seed % (2 ** 31) or 1),
+                            "-max_len=96", "-print_final_stats=1"], capture_output=True, text=True, timeout=3600)
+        done = 0
+        for line in p.stderr.splitlines():
+            if line.startswith("stat::number_of_executed_units:"):
+                done = int(line.split(":")[-1])
+        src = None
+        f = os.path.join(art, "failing_source.txt")
+        if os.path.exists(f):
+            with open(f, encoding="utf8") as fh:
+                src = fh.read().split("\n")[0]
+        return {"done": done, "rc": p.returncode, "source": src, "tail": p.stderr[-300:]}
+    finally:
+        import shutil
+        shutil.rmtree(art, ignore_errors=True)
+
+
+def _fuzz_stage(report):
+    try:
+        import atheris  # noqa: F401
+    except ImportError:
+        report.notes.append("atheris is not importable: the optional coverage-guided stage was skipped")
+        return
+    items = [(env.sub_seed(report.seed, "C03", "fuzz", i), 120000) for i in range(env.NPROC)]
+    total = 0
+    for r in env.pmap(_fuzz_one, items):
+        total += r["done"]
+        if r["source"]:
+            part = new_part()
+            check_source(part, r["source"], True, "coverage-guided stage")
+            if part["violations"]:
+                report.violations += part["violations"]
+            else:
+                report.notes.append("fuzz stage reported a failure that does not replay: %r" % r["source"][:200])
+        elif r["rc"] != 0:
+            report.notes.append("fuzz process ended with status %s: %s" % (r["rc"], r["tail"][-150:]))
+    report.evaluations += total
+    report.extra["coverage_guided_executions"] = total
 
 
 def _ast_from_dump(dump):
